@@ -272,6 +272,31 @@ def builtin? : String → Option Builtin
 
 def createsS (x : List Call × DescObs) : String := joinOr "," (x.1.map callS) ++ "|" ++ descS x.2
 
+/-! ### q <receiver> <argument>: isPrototypeOf / getPrototypeOf / instanceof side by side -/
+def plink? : String → Option PLink
+  | "objectP" => some .objectP | "numberP" => some .numberP | "stringP" => some .stringP
+  | "booleanP" => some .booleanP | "functionP" => some .functionP | _ => none
+
+def precv? : String → Option PRecv
+  | "null" => some .null | "undefined" => some .undefined
+  | s => (plink? s).map .proto
+
+def parg? : String → Option PArg
+  | "number" => some .number | "string" => some .string | "boolean" => some .boolean | "undefined" => some .undefined
+  | "null" => some .null | "missing" => some .missing | "numObj" => some .numObj | "strObj" => some .strObj
+  | "boolObj" => some .boolObj | "plain" => some .plain | "func" => some .func | "nullProto" => some .nullProto | _ => none
+
+def plinkS : PLink → String
+  | .objectP => "o" | .numberP => "n" | .stringP => "s" | .booleanP => "b" | .functionP => "f"
+
+def presS : PRes → String
+  | .t => "t" | .f => "f" | .typeError => "T" | .isProto p => "p" ++ plinkS p | .isNull => "N" | .na => "-"
+
+/-- `Dev_call_undefined_this`: Function.prototype.call / apply turn an undefined thisArg into the global object
+    (ES3 behaviour, ES5 15.3.4.4 passes it unchanged), so a built-in that does ToObject(this) does not throw -/
+def devCallUndefined (r : PRecv) (a : PArg) : Bool :=
+  (match r with | .undefined => true | _ => false) && a.chain.isSome
+
 def dedup : List String → List String
   | [] => []
   | x :: t => if (dedup t).contains x then dedup t else x :: dedup t
@@ -300,6 +325,13 @@ def handle (ws : List String) : String :=
     (match ments? (es.splitOn ",") with
      | some ents => mapS (defineMap ents) ++ " " ++ mapS (Spec.defineMap ents) ++ " -"
      | none => "bad-op")
+  | ["q", r, a] =>
+    (match precv? r, parg? a with
+     | some r, some a =>
+       "|".intercalate [presS (isPrototypeOf r a), presS (getPrototypeOf a), presS (instanceOf r a)] ++ " " ++
+       "|".intercalate [presS (Spec.isPrototypeOf r a), presS (Spec.getPrototypeOf a), presS (Spec.instanceOf r a)] ++ " " ++
+       (if devCallUndefined r a then "call_undefined_this" else "-")
+     | _, _ => "bad-op")
   | ["p", f, a] =>
     match objFn? f, primArg? a with
     | some f, some a =>
